@@ -141,8 +141,48 @@ def gen_C11(tier, rng):
         for tl in (1, 2, 3):
             pw, sa, ke, ad, st = inputs(rng, "typ")
             yield (case(ty, 19, 1, 8, 1, tl, pw, sa, ke, ad), "taglen.short")
+    # -- builder histories: the derived geometry must depend only on the LAST value given to each setter, not on the
+    #    order or repetition of the calls (op argon2.build)
+    yield from _builder(tier, rng)
     # -- refused
     yield from _refused(rng)
+
+
+def _builder(tier, rng):
+    ms = (8, 16, 24, 32, 40, 47, 48, 63, 64, 100, 129)
+    ps = (1, 2, 3, 4, 5)
+
+    def line(ty, prog, tl=32):
+        pw, sa, ke, ad, st = inputs(rng, "typ")
+        return f"argon2.build {ty} {','.join(prog) if prog else '-'} {tl} {hx(pw)} {hx(sa)} {hx(ke)} {hx(ad)}"
+    named = [["p3", "m47", "p2"], ["m100", "p4", "p5"], ["m47", "p3", "m47", "p2"], ["p4", "m64", "p1"], ["m129", "p5", "p2", "t2"],
+             ["p2", "m47", "p3", "v16"], ["m40", "p5", "m100", "p3"], [], ["t2"], ["p2", "m16"], ["m64", "p2", "m63"],
+             ["p5", "p4", "p3", "m100"], ["m100", "m47", "p2"], ["v16", "t2", "m48", "p3", "t1", "v19"]]
+    for i, prog in enumerate(named):
+        yield (line(TYPES[i % 3], prog), "builder.named")
+    # the same final parameters reached by two different call orders (both lines must give the Spec's tag)
+    for _ in range(6 if tier == "quick" else 60):
+        p1, p2 = rng.choice(ps), rng.choice(ps)
+        m1, m2 = rng.choice(ms), rng.choice([m for m in ms if m >= 8 * max(p1, p2)] or [64])
+        ty = rng.choice(TYPES)
+        for prog in ([f"p{p1}", f"m{m1}", f"p{p2}", f"m{m2}"], [f"m{m2}", f"p{p2}"], [f"m{m1}", f"p{p1}", f"m{m2}", f"p{p2}"],
+                     [f"p{p1}", f"m{m2}", f"p{p2}"]):
+            yield (line(ty, prog), "builder.order")
+    # random histories (some pass through m < 8p: answered by the Impl model only), some with a refusal in the middle
+    for _ in range(24 if tier == "quick" else 300):
+        n = rng.randrange(1, 6)
+        prog = []
+        for _ in range(n):
+            k = rng.choice("mmppptv")
+            if k == "m":
+                prog.append(f"m{rng.choice(ms)}")
+            elif k == "p":
+                prog.append(f"p{rng.choice(ps)}")
+            elif k == "t":
+                prog.append(f"t{rng.choice([1, 2, 1, 0] if rng.randrange(8) == 0 else [1, 2])}")
+            else:
+                prog.append(f"v{rng.choice([16, 19, 19, 7] if rng.randrange(8) == 0 else [16, 19])}")
+        yield (line(rng.choice(TYPES), prog, rng.choice([32, 4, 64, 65])), "builder.random")
 
 
 def _refused(rng):
